@@ -449,10 +449,18 @@ alias solid1D_is_model := Stencil1D.solidStep1D_eq_solid1D
 /-- the hypotheses of `nucleation_adiabatic` hold for the default 5 % sucrose solution
 at −10 °C: `nuc_phys` is instantiated on concrete numbers -/
 theorem nonvacuous :
-    ∃ Ts mi : ℝ, (4040 : ℝ) * 1 * (Ts - 263.15) = 333550 * mi ∧ 263.15 < Ts ∧ 0 < mi ∧ mi < 0.95 := by
-  have h := nuc_phys 4040 1 333550 0.95 0.05 (1.853 / 0.3423) 273.15 263.15
-    (by norm_num) (by norm_num) (by norm_num) (by norm_num) (by norm_num) (by norm_num) (by norm_num)
-    _ _ _ _ rfl rfl rfl rfl
-  exact ⟨_, _, h.1, h.2.1, h.2.2.2.1, h.2.2.2.2⟩
+    (∃ Ts mi : ℝ, (4040 : ℝ) * 1 * (Ts - 263.15) = 333550 * mi ∧ 263.15 < Ts ∧ 0 < mi ∧ mi < 0.95) ∧
+    -- every hypothesis of `nucleation_adiabatic` on the default configuration `pDef`, node at -10 °C
+    (0 < pDef.cp_solution ∧ 0 < pDef.mass ∧ 0 < pDef.Dh ∧ 0 < pDef.mass_water ∧ 0 < pDef.mass_solute
+      ∧ 0 < pDef.k_f / pDef.M_s
+      ∧ pDef.depression = pDef.k_f / pDef.M_s * (pDef.mass_solute / pDef.mass_water)
+      ∧ (263.15 : ℝ) < TeqL pDef) := by
+  constructor
+  · have h := nuc_phys 4040 1 333550 0.95 0.05 (1.853 / 0.3423) 273.15 263.15
+      (by norm_num) (by norm_num) (by norm_num) (by norm_num) (by norm_num) (by norm_num) (by norm_num)
+      _ _ _ _ rfl rfl rfl rfl
+    exact ⟨_, _, h.1, h.2.1, h.2.2.2.1, h.2.2.2.2⟩
+  · refine ⟨?_, ?_, ?_, ?_, ?_, ?_, ?_, ?_⟩ <;>
+      simp only [pDef, TeqL, Tm, kelvin, lit_real] <;> norm_num
 
 end Snow.C02
